@@ -509,6 +509,12 @@ def _use_lemma(self, name, binding, p, where, conditional=False):
 def _apply_lemmas(self, anchor, p):
     for u in self.contract.get('use_lemmas', {}).get(anchor, []):
         self.use_lemma(u[0], u[1], p, anchor, conditional=(len(u) > 2 and u[2] == 'if-applicable'))
+    # intermediate assertions (proof cuts): proved here, then available to everything that follows on this path
+    for i, src in enumerate(self.contract.get('asserts', {}).get(anchor, [])):
+        name, src = src if isinstance(src, tuple) else ('%d' % i, src)
+        t = self.spec_eval(src, p)
+        self.vcs.append(VC('assert/%s/%s' % (anchor, name), list(p.pc), t, 'assert', 0, self.fn.key))
+        p.assume(t)
 
 
 def _add_axioms(self):
